@@ -352,6 +352,20 @@ func (fr *frame) scanCallMods(m *loopMods, info *types.Info, call *ast.CallExpr,
 		}
 	}
 	if fn == nil {
+		// a local holding a function literal whose contract is applied where it is called (flag use=contract):
+		// the loop targets are that contract's modifies clause
+		if id, ok := fun.(*ast.Ident); ok && fr.scanState != nil {
+			if v, ok := info.ObjectOf(id).(*types.Var); ok {
+				if val := fr.scanState.vars[v]; val != nil && val.K == VFunc && val.Fn != nil && val.Fn.Lit != nil && val.Fn.Owner != nil && val.Fn.Owner.contract != nil {
+					if cc := val.Fn.Owner.contract.Closures[val.Fn.Ordinal]; cc != nil && cc.Flags["use"] == "contract" {
+						if sig, ok := info.TypeOf(id).Underlying().(*types.Signature); ok {
+							fr.contractMods(m, cc, fr.pkg, sig, nil)
+							return
+						}
+					}
+				}
+			}
+		}
 		if id, ok := fun.(*ast.Ident); ok && fr.fn != nil {
 			if c := reg.contracts[funcKey(fr.fn.Origin())+"#"+id.Name]; c != nil {
 				if sig, ok := info.TypeOf(id).Underlying().(*types.Signature); ok {
@@ -660,7 +674,9 @@ func (fr *frame) loopCore(st *State, node ast.Node, label string, scanNodes []as
 	}
 	fr.checkInvs(st, ls, "init")
 	m := newLoopMods()
+	fr.scanState = st
 	fr.scanMods(m, fr.info, scanNodes, fr.depth)
+	fr.scanState = nil
 	// ghost updates of this frame's contract that can fire inside the loop: their targets are loop targets
 	if fr.contract != nil {
 		fires := func(where string) bool {
